@@ -16,6 +16,10 @@ Harness (real code, bitwise): each script is run once in a fresh process (refere
 * after a persistence round trip of the script (rdscript_to_dict/from_dict, save/load, from the caller's script or from
   trajectory.script) with parameters of 15-17 significant digits (1/300, '12.3456789 ms', t_max = n*dt + 1.234e-8),
 * scripts built WITHOUT a seed whose seed nobody reads before setup (the harness does not either),
+* in fresh interpreters with PYTHONHASHSEED 0..5 (Euler scripts whose rate constants carry all three unit components and
+  whose units system differs from the default in space, time and quantity),
+* while a set-up on ANOTHER engine object is refused mid-run (misspelt option, script without times and t_max),
+* stochastic set-ups redistributing an odd number of >= 100-molecule entries, repeated / after one another in one process,
 * tau-leap on grids with channel means >= 12 per step (tens of thousands of molecules per cell: the normal-approximation
   branch of std::poisson_distribution), repeated four times and after other such runs in the same process.
 Oracle: bitwise equality (sha1 of t.tobytes() + data.tobytes()) with the reference.
@@ -58,7 +62,7 @@ def rand_schedule(rng):
     return steps
 
 
-KINDS = ["schedule", "twice", "after_others", "simulate", "resim", "reused", "noseed", "poll_reused", "edit_resim", "schedule"]
+KINDS = ["schedule", "twice", "after_others", "simulate", "resim", "reused", "noseed", "poll_reused", "edit_resim", "refused_other"]
 
 
 def run(ctx):
@@ -97,6 +101,40 @@ def run(ctx):
                                     "units_system": {"time": "s", "space": "µm", "quantity": "molecule"}}}
         info = {"option": "tauleap", "policy": S["kw"]["sampling_policy"], "space": "grid", "bigmean": True, "nsp": 2, "n": ncell}
         entries.append({"S": S, "info": info, "option": "tauleap", "eng": "tauleap", "idx": n + b, "bigmean": True})
+    # stochastic set-ups with redistribution ("redist" / "auto") of an ODD number of entries with >= 100 molecules (the normal
+    # approximation of the redistribution draws deviates in pairs): repeated and run after one another in one process
+    for b in range(ctx.n(3, 9)):
+        option = ["tauleap", "gillespie"][b % 2]
+        kind_sp = ["grid", "graph"][(b // 2) % 2]
+        ncell = rng.choice([1, 3])
+        if kind_sp == "grid":
+            space = {"type": "grid", "w": ncell, "h": 1, "d": 1, "cell_volume": 1.0, "cell_env": [0] * ncell, "boundary_conditions": {}}
+        else:
+            space = {"type": "graph", "nodes": [{"volume": 1.0, "environment": 0} for _ in range(ncell)],
+                     "edges": [{"nodes": [i, i + 1], "surface": 1.0, "distance": 1.0} for i in range(ncell - 1)]}
+        sysd = {"network": {"species": [{"label": "A", "density": 0, "D": 0.5}, {"label": "B", "density": 0, "D": 0.0}],
+                            "reactions": [{"eq": "A -> B", "k+": 1.0, "k-": 0.5}], "environments": ["a"]},
+                "space": space, "state": [float(rng.choice([150, 1000, 101.5, 4000])) for _ in range(ncell)] + [float(rng.choice([0, 3, 40]))] * ncell}
+        nst = rng.randint(6, 20)
+        S = {"system": sysd, "kw": {"t_sample": [0.0, 1e-3 * nst], "time_step": 1e-3, "t_max": 1e-3 * nst if option == "tauleap" else 2e-4,
+                                    "sampling_policy": "on_iteration", "rng_seed": rng.randint(0, 2 ** 31 - 1),
+                                    "init_state_processing": rng.choice(["redist", "auto"])}}
+        info = {"option": option, "policy": "on_iteration", "space": kind_sp, "bigstate": True, "nsp": 2, "n": ncell, "mode": S["kw"]["init_state_processing"]}
+        entries.append({"S": S, "info": info, "option": option, "eng": option, "idx": n + 300 + b, "bigmean": True})
+    # a rate constant with all three unit components (2nd / 0th order), script units differing from the reaction's in space,
+    # time AND quantity: the conversion must not depend on the interpreter (string hashing differs between processes)
+    for b in range(ctx.n(2, 6)):
+        S, info = lc.gen_script(rng, "euler", max_steps=40, policy="on_iteration", units=False, space_kind=["grid", "graph"][b % 2], mode="none")
+        S["system"]["network"]["species"] = [{"label": l, "density": 0, "D": 0} for l in ("A", "B", "C")][:max(info["nsp"], 2)]
+        labels = [sp["label"] for sp in S["system"]["network"]["species"]]
+        S["system"]["network"]["reactions"] = [{"eq": "A + B -> " + ("C" if "C" in labels else ""), "k+": rng.choice([0.37, 1.3, 0.071]), "k-": 0.013},
+                                               {"eq": "2 A -> B", "k+": 0.21}]
+        ncell = info["n"]
+        S["system"]["state"] = [float(rng.choice([3.7, 11.3, 0.9, 25.1])) for _ in range(len(labels) * ncell)]
+        info["nsp"] = len(labels)
+        S["kw"]["units_system"] = {"space": rng.choice(["nm", "mm", "dm"]), "time": rng.choice(["ms", "min", "µs"]), "quantity": rng.choice(["mol", "µmol", "nmol"])}
+        S["kw"].pop("__from_dict__", None)
+        entries.append({"S": S, "info": info, "option": "euler", "eng": "euler", "idx": n + 400 + b, "conv3": True})
     # parameters with more than 6 significant digits (15-17), for the persistence routes (dict / file / trajectory.script)
     for b in range(ctx.n(4, 16)):
         option = lc.OPTIONS[b % 3]
@@ -205,6 +243,24 @@ def run(ctx):
                           {"obj": 0, "call": "setup", "script": 0, "peek": True},
                           {"obj": 0, "call": "poll", "how": how, "step": step, "max": 100000},
                           {"obj": 0, "call": "get_output", "full": True}, {"obj": 0, "call": "finalize"}]
+            elif kind == "refused_other":
+                # mid-run, a set-up that must be REFUSED is attempted on another engine object of the same library (misspelt
+                # option, or a script without requested times and without t_max); the caller catches it and goes on
+                if rng.random() < 0.5:
+                    engines.append(rng.choice(["tau-leap", "Euler", "gilespie"]))
+                    bad_script = 0
+                else:
+                    engines.append(rng.choice(lc.OPTIONS))
+                    S4 = json.loads(json.dumps(e["S"]))
+                    S4["kw"]["t_sample"] = []
+                    S4["kw"].pop("t_max", None)
+                    S4["kw"].pop("__tsample_first__", None)
+                    scripts.append(S4)
+                    bad_script = len(scripts) - 1
+                calls += [{"obj": 0, "call": "setup", "script": 0, "peek": True}, {"obj": 0, "call": "iterate_n", "n": rng.choice([1, 2, 7])},
+                          {"obj": 1, "call": "setup", "script": bad_script, "expect_raise": True},
+                          {"obj": 0, "call": "schedule", "steps": sched, "max": 100000},
+                          {"obj": 0, "call": "get_output", "full": True}, {"obj": 0, "call": "finalize"}]
             elif kind.startswith("persist:"):
                 # run, put the script (or the one stored in the trajectory) through rdscript_to_dict/from_dict or save/load,
                 # re-run the result on a new engine object: bit-identical
@@ -241,6 +297,14 @@ def run(ctx):
         jobs.append({"id": "v%d_seed" % e["idx"], "engines": [e["eng"]], "scripts": [S3], "timeout": 30, "kind": "otherseed", "entry": e["idx"],
                      "sched": [], "calls": [{"obj": 0, "call": "simulate", "script": 0}]})
     res = lc.run_jobs(jobs, kind="plain", chunk=ctx.n(6, 20), parallel=ctx.n(8, 8), stall=ctx.n(10, 30))
+    # the same script and seed in fresh interpreters with different string-hash seeds (set / dict iteration orders differ)
+    for hs in range(6):
+        hjobs = [{"id": "v%d_hs%d" % (e["idx"], hs), "engines": [e["eng"]], "scripts": [e["S"]], "timeout": 30, "kind": "hashseed", "entry": e["idx"],
+                  "sched": [], "hashseed": hs, "calls": [{"obj": 0, "call": "simulate", "script": 0}]}
+                 for e in good if e.get("conv3") or (hs < 2 and e["idx"] % 5 == 0)]
+        if hjobs:
+            res.update(lc.run_jobs(hjobs, kind="plain", chunk=50, parallel=1, stall=ctx.n(10, 30), env_extra={"PYTHONHASHSEED": str(hs)}))
+            jobs += hjobs
     by_idx = {e["idx"]: e for e in good}
     ops, metas = [], []
     for j in jobs:
@@ -249,14 +313,24 @@ def run(ctx):
         kind = j["kind"]
         ctx.count("variant_" + kind)
         case = {"job": {k: j[k] for k in ("id", "engines", "scripts", "calls", "kind")}, "reference_hash": e["ref"]["hash"]}
+        if "hashseed" in j:
+            case["env"] = {"PYTHONHASHSEED": str(j["hashseed"])}
         steps = len(e["ref"]["T"]) - 1
         ctx.case((e["idx"], j["id"]), nontrivial=steps >= 2,
                  sample={"op": "schedule", "kind": kind, "engine": e["option"], "policy": e["info"]["policy"], "steps": steps, "schedule": j["sched"][:6]})
-        if r["status"] != "ok" or any("raised" in x for x in r["results"]):
-            what = r["status"] if r["status"] != "ok" else [x["raised"] for x in r["results"] if "raised" in x][0]
+        unexpected = [x for c, x in zip(j["calls"], r["results"]) if "raised" in x and not c.get("expect_raise")]
+        not_refused = [c for c, x in zip(j["calls"], r["results"]) if c.get("expect_raise") and "raised" not in x]
+        if not_refused and r["status"] == "ok":
+            ctx.violation("setup-not-refused", "a set-up that must be refused (engine option %r / script without requested times and t_max) was accepted"
+                          % j["engines"][not_refused[0]["obj"]], case)
+        if r["status"] != "ok" or unexpected:
+            what = r["status"] if r["status"] != "ok" else unexpected[0]["raised"]
             ctx.violation("variant-run:%s" % kind, "a %s run of a valid script did not go through: %s" % (kind, what), case, impl=what)
             continue
-        outs = [x["ret"] for c, x in zip(j["calls"], r["results"]) if c["call"] in ("get_output", "simulate", "resim")]
+        outs = [x["ret"] for c, x in zip(j["calls"], r["results"]) if c["call"] in ("get_output", "simulate", "resim") and "ret" in x]
+        for x in r["results"]:
+            for key, what, impl, exp in lc.edit_failures(x):
+                ctx.violation(key, what, case, impl=impl, expected=exp)
         if kind == "otherseed":
             h = outs[-1]["hash"]
             # (with init_state_processing Poisson / redist the initial state is drawn with the seed, for every engine)
@@ -363,11 +437,18 @@ def replay(ctx, rec):
     case = rec.get("case", rec)
     job = dict(case["job"])
     job.setdefault("timeout", 30)
-    res = lc.run_jobs([job], kind="plain", parallel=1, stall=20)
+    res = lc.run_jobs([job], kind="plain", parallel=1, stall=20, env_extra=case.get("env"))
     r = res[str(job["id"])]
     if r["status"] != "ok":
         return False, {"status": r["status"], "at": r["at"]}
     outs = [x["ret"] for c, x in zip(job["calls"], r["results"]) if c["call"] in ("get_output", "simulate", "resim") and "ret" in x]
+    if job.get("kind") == "hashseed" and bool(outs):
+        # bit-identical across interpreters: the same run under the other hash seeds
+        hs = []
+        for k in range(4):
+            rr = lc.run_jobs([dict(job)], kind="plain", parallel=1, stall=20, env_extra={"PYTHONHASHSEED": str(k)})[str(job["id"])]
+            hs += [x["ret"]["hash"] for c, x in zip(job["calls"], rr["results"]) if c["call"] == "simulate" and "ret" in x]
+        return (len(set(hs + [outs[-1]["hash"]])) == 1), {"hashes_by_PYTHONHASHSEED": hs, "this": outs[-1]["hash"]}
     detail = {"kind": job.get("kind"), "hashes": [o["hash"] for o in outs], "reference_hash": case.get("reference_hash")}
     if case.get("kind") == "seed-type":
         got = r["results"][0].get("meta", {}).get("seed")
